@@ -32,7 +32,7 @@ Unsupported = GL.Unsupported
 
 GL.CONSTS.update({"LRU_TRIE_HEADER_FORMAT": ("header_format", "fmt"), "LRU_TRIE_HEADER_LAST_WEBENTITY_ID": ("hpos_last_we", "pos"),
                   "LRU_TRIE_NODE_WEBENTITY": ("pos_we", "pos")})
-GL.COQT.update({"thdr": "py_thdr", "pdict": "list (bytes * (py_node * py_hist))"})
+GL.COQT.update({"thdr": "py_thdr", "pdict": "list (bytes * (py_node * py_hist))", "ndict": "list (bytes * option py_node)"})
 GL.ATTRS["thdr"] = ("th", {"data": "fvals"})
 
 PREAMBLE = r"""(* LRUTrieHeader: the RAM copy of the header block *)
@@ -71,6 +71,18 @@ class FnW(GA.FnT):
         if isinstance(e, ast.Call) and isinstance(e.func, ast.Name) and e.func.id == "len" and len(e.args) == 1 \
                 and isinstance(e.args[0], ast.Name) and env.get(e.args[0].id) == "listB":
             return "(N.of_nat (length v_%s))" % e.args[0].id, "N"
+        if isinstance(e, ast.UnaryOp) and isinstance(e.op, ast.Not) and isinstance(e.operand, ast.Name) and env.get(e.operand.id) == "N":
+            return "(N.eqb v_%s 0%%N)" % e.operand.id, "bool"          # an id given as False or 0
+        if isinstance(e, ast.Compare) and len(e.ops) == 1 and isinstance(e.ops[0], (ast.Eq, ast.NotEq)):
+            a, ta = self.expr(e.left, env)
+            b, tb = self.expr(e.comparators[0], env)
+            if ta == "oN" and tb == "N":
+                t = "(oN_eqb %s (Some %s))" % (a, b)
+                return (t if isinstance(e.ops[0], ast.Eq) else "(negb %s)" % t), "bool"
+        if isinstance(e, ast.BoolOp) and isinstance(e.op, ast.Or):
+            parts = [self.expr(v, env) for v in e.values]
+            if all(t == "bool" for _, t in parts):
+                return "(" + " || ".join(a for a, _ in parts) + ")", "bool"
         return GA.FnT.expr(self, e, env)
 
     def is_pure_call(self, c, env):
@@ -89,6 +101,12 @@ class FnW(GA.FnT):
                     return nxt()
                 if isinstance(v, ast.Dict) and not v.keys and self.decl.get(n) == "pdict":
                     return "(let v_%s := (@nil (bytes * (py_node * py_hist))) in\n %s)" % (n, nxt(dict(env, **{n: "pdict"})))
+                if isinstance(v, ast.Dict) and not v.keys and self.decl.get(n) == "ndict":
+                    return "(let v_%s := (@nil (bytes * option py_node)) in\n %s)" % (n, nxt(dict(env, **{n: "ndict"})))
+                if isinstance(v, ast.ListComp) and env.get(n) == "listB" and len(v.generators) == 1 \
+                        and isinstance(v.generators[0].target, ast.Name) and ast.unparse(v.generators[0].iter) == n \
+                        and not v.generators[0].ifs and ast.unparse(v.elt) == "self.__encode(%s)" % v.generators[0].target.id:
+                    return nxt()            # [self.__encode(x) for x in xs]: the identity on byte strings
                 if isinstance(v, ast.List) and not v.elts and self.decl.get(n) == "listB":
                     return "(let v_%s := (@nil bytes) in\n %s)" % (n, nxt(dict(env, **{n: "listB"})))
                 if ast.unparse(v) == "[self.__encode(prefix) for prefix in %s]" % n and env.get(n) == "listB":
@@ -98,6 +116,38 @@ class FnW(GA.FnT):
                 if isinstance(v, ast.Call) and ast.unparse(v.func) == "self.__generated_web_entity_id" and not v.args and not v.keywords:
                     return "(match py_traph_generated_web_entity_id hd sg with\n | None => %s\n | Some (hd, sg, v_%s) => %s end)" % (
                         self.fail(), n, nxt(dict(env, **{n: "N"})))
+            if isinstance(s, ast.If) and isinstance(s.test, ast.Call) and isinstance(s.test.func, ast.Attribute) \
+                    and ast.unparse(s.test.func.value) == "self" and ("traph", s.test.func.attr) in self.tr.sigs and not s.orelse:
+                # if self.<translated request returning a truth value>(..): ...
+                call = self.wcall(s.test, env)
+                return "(match %s with\n | None => %s\n | Some (hd, sg, v__b) => (if v__b\n then %s\n else %s) end)" % (
+                    call, self.fail(), self.block(list(s.body) + rest, env, k), self.block(rest, env, k))
+            if isinstance(s, ast.Return) and isinstance(s.value, ast.Call) and isinstance(s.value.func, ast.Attribute) \
+                    and ast.unparse(s.value.func.value) == "self" and ("traph", s.value.func.attr) in self.tr.sigs:
+                call = self.wcall(s.value, env)
+                return "(match %s with\n | None => %s\n | Some (hd, sg, v__b) => %s end)" % (call, self.fail(), self.ret("v__b", env))
+            if isinstance(s, ast.For) and isinstance(s.iter, ast.Call) and isinstance(s.iter.func, ast.Attribute) and s.iter.func.attr == "items" \
+                    and isinstance(s.iter.func.value, ast.Name) and env.get(s.iter.func.value.id) == "ndict" and not s.orelse:
+                # for prefix, node in d.items(): <writes through node>   (a None value raises at its first method call)
+                tg = s.target
+                if not (isinstance(tg, ast.Tuple) and len(tg.elts) == 2 and all(isinstance(x, ast.Name) for x in tg.elts)):
+                    raise Unsupported("target of the loop over the dict")
+                k_, n_ = tg.elts[0].id, tg.elts[1].id
+                for x in ast.walk(ast.Module(body=list(s.body), type_ignores=[])):
+                    if isinstance(x, (ast.Assign, ast.AugAssign, ast.Return, ast.Break, ast.Continue, ast.For, ast.While, ast.If)):
+                        raise Unsupported("body of the loop over the dict")
+                if not (s.body and isinstance(s.body[0], ast.Expr) and isinstance(s.body[0].value, ast.Call)
+                        and isinstance(s.body[0].value.func, ast.Attribute) and ast.unparse(s.body[0].value.func.value) == n_):
+                    raise Unsupported("first statement of the loop over the dict")
+                env1 = dict(env, **{k_: "bytes", n_: "tnode"})
+                saved = self.loop_k
+                self.loop_k = True
+                body = self.block(list(s.body), env1, lambda e2: "(Some sg)")
+                self.loop_k = saved
+                return ("(match fold_left (fun (st : option py_pm) (v__it : (bytes * option py_node)) =>\n match st with\n | None => None\n"
+                        " | Some sg => (let '(v_%s, v__n) := v__it in\n match v__n with\n | None => None\n | Some v_%s => %s end) end)\n"
+                        " v_%s (Some sg) with\n | None => %s\n | Some sg => %s end)"
+                        % (k_, n_, body, s.iter.func.value.id, self.fail(), nxt()))
             if isinstance(s, ast.Assign) and len(s.targets) == 1 and isinstance(s.targets[0], ast.Tuple) and isinstance(s.value, ast.Call) \
                     and ast.unparse(s.value.func) == "self.__add_prefixes":
                 a = [x.id for x in s.targets[0].elts]
@@ -147,10 +197,21 @@ class FnW(GA.FnT):
                         % (k_, n_, h_, body, s.iter.func.value.id, self.fail(), nxt()))
         return GA.FnT.block(self, stmts, env, k)
 
+    def wcall(self, c, env):
+        sig = self.tr.sigs[("traph", c.func.attr)]
+        return "%s hd sg%s" % (sig["coq"], "".join(" " + x for x in self.args(c, sig, env)))
+
     def call_stmt(self, c, target, env, nxt):
         f = c.func
         if isinstance(f, ast.Attribute) and isinstance(f.value, ast.Name):
             o = f.value.id
+            if env.get(o) == "ndict" and f.attr == "update" and len(c.args) == 1 and target is None and not c.keywords \
+                    and isinstance(c.args[0], ast.Dict) and len(c.args[0].keys) == 1:
+                k_, tk = self.expr(c.args[0].keys[0], env)
+                a, ta = self.expr(c.args[0].values[0], env)
+                if tk != "bytes" or ta not in ("tnode", "otnode"):
+                    raise Unsupported("dict update with %s: %s" % (tk, ta))
+                return "(let v_%s := py_dict_update %s %s v_%s in\n %s)" % (o, k_, self.coerce(a, ta, "otnode"), o, nxt())
             if self.alias and o in self.alias and target is None:
                 sig = self.tr.sigs.get(("thdr", f.attr))
                 if sig is None or c.args or c.keywords:
@@ -260,6 +321,19 @@ def main(out):
     wfn("__add_prefixes", [("prefixes", "listB", None), ("use_best_case", "bool", None)], "pair:oN:listB", "(option N * list bytes)",
         decl={"valid_prefixes_index": "pdict", "invalid_prefixes": "listB"}, defaults=["True"])
     wfn("create_webentity", [("prefixes", "listB", None)], "pair:oN:listB", "(option N * list bytes)")
+    T.method(TN, "tnode", "unset_webentity", [], "node")
+
+    def reg(name, params):
+        T.sigs[("traph", name)] = {"kind": "wfn", "params": params, "rtype": "bool", "coq": "py_traph_" + name}
+    # an id parameter whose default is False: False and 0 are the same number in Python (`not weid`, `== weid`)
+    wfn("add_prefix_to_webentity", [("prefix", "bytes", None), ("weid", "N", None)], "bool", "bool")
+    reg("add_prefix_to_webentity", [("prefix", "bytes", None), ("weid", "N", None)])
+    wfn("remove_prefix_from_webentity", [("prefix", "bytes", None), ("weid", "N", None)], "bool", "bool", defaults=["False"])
+    reg("remove_prefix_from_webentity", [("prefix", "bytes", None), ("weid", "N", "0%N")])
+    wfn("move_prefix_to_webentity", [("prefix", "bytes", None), ("weid_target", "N", None), ("weid_source", "N", None)], "bool", "bool",
+        defaults=["False"])
+    wfn("delete_webentity", [("weid", "N", None), ("weid_prefixes", "listB", None), ("check_for_corruption", "bool", None)], "bool", "bool",
+        decl={"prefix_index": "ndict"}, defaults=["True"])
     L = ["(* GENERATED by harness/gen_traphw.py from %s/traph/traph.py, lru_trie/header.py, lru_trie/node.py -- do not edit *)" % REPO,
          "From Coq Require Import List NArith Bool Arith.", "Import ListNotations.",
          "From Traph Require Import Bytes Consts Layout Codec GenStorage GenNode GenLinks GenTrie GenTrieW.", "", PREAMBLE]
